@@ -78,14 +78,18 @@ def norm_tokens(seq):
 class ServedFile(io.RawIOBase):
     """A binary file object that records the reads it serves."""
 
-    def __init__(self, data):
+    def __init__(self, data, caps=()):
         self.b = io.BytesIO(data)
         self.served = []
+        self.caps = list(caps)          # the i-th read returns at most caps[i] bytes (a short read); later reads are full
 
     def readable(self):
         return True
 
     def read(self, n=-1):
+        k = len(self.served)
+        if k < len(self.caps) and (n < 0 or self.caps[k] < n):
+            n = self.caps[k]
         d = self.b.read(n)
         self.served.append(len(d))
         return d
@@ -99,7 +103,11 @@ def run_case(case, tmp):
 
     from dvc_data.hashfile.hash import file_md5, fobj_md5, get_hash_stream, hash_file
 
-    stream, content, reads, fed = case["stream"], case["content"], case["reads"], case["fed"]
+    stream, content, fed = case["stream"], case["content"], case["fed"]
+    pairs = [tuple(r) for r in case["reads"]]          # (requested units, units the source hands over)
+    reads = [n for n, _k in pairs]
+    caps = [k * UNIT for _n, k in pairs]
+    short = any(k < n for n, k in pairs)
     data = conc(content)
     expected = conc(fed)
     # self-checks of the concretisation against the spec's abstractions
@@ -113,14 +121,14 @@ def run_case(case, tmp):
     recs = []
 
     def rec(api, alg, digest, out_ok, count_ok, one_read, lf_digest=None, exp=expected):
-        recs.append({"stream": stream, "content": content, "reads": reads, "api": api, "alg": alg,
+        recs.append({"stream": stream, "content": content, "reads": [list(x) for x in pairs], "fed": fed, "api": api, "alg": alg,
                      "model_match": digest == ref_digest(alg, exp), "raw_match": digest == ref_digest(alg, data),
                      "norm_match": digest == ref_digest(alg, lf), "lf_equal": (lf_digest == digest) if lf_digest is not None else True,
                      "out_ok": bool(out_ok), "count_ok": bool(count_ok), "one_read": bool(one_read)})
 
     for alg in algs:
         # the stream classes, served exactly the modelled reads
-        st = get_hash_stream(io.BytesIO(data), name=alg)
+        st = get_hash_stream(ServedFile(data, caps) if short else io.BytesIO(data), name=alg)
         out = b""
         for n in reads:
             out += st.read(n * UNIT)
@@ -130,7 +138,7 @@ def run_case(case, tmp):
                 break
             out += extra
         lf_digest = None
-        one = len(reads) == 1 and reads[0] >= len(content)
+        one = len(pairs) == 1 and pairs[0][1] >= len(content)
         if stream == "legacy" and one:
             st2 = get_hash_stream(io.BytesIO(lf), name=alg)
             st2.read(max(2, reads[0]) * UNIT * 2)
@@ -139,11 +147,12 @@ def run_case(case, tmp):
         # fobj_md5 with a constant chunk size
         if reads and len(set(reads)) == 1:
             chunk_units = reads[0]
-            d = fobj_md5(io.BytesIO(data), chunk_size=chunk_units * UNIT, name=alg.lower() if alg != "MD5" else "md5")
-            rec("fobj_md5", alg, d, True, True, chunk_units >= len(content) and stream == "legacy",
+            d = fobj_md5(ServedFile(data, caps) if short else io.BytesIO(data), chunk_size=chunk_units * UNIT,
+                         name=alg.lower() if alg != "MD5" else "md5")
+            rec("fobj_md5", alg, d, True, True, one and stream == "legacy",
                 fobj_md5(io.BytesIO(lf), chunk_size=max(2, chunk_units) * UNIT * 2, name=alg.lower() if alg != "MD5" else "md5")
-                if stream == "legacy" and chunk_units >= len(content) else None)
-    if case.get("files"):
+                if stream == "legacy" and one else None)
+    if case.get("files") and not short:
         fs = LocalFileSystem()
         p = os.path.join(tmp, f"f{case['id']}")
         with open(p, "wb") as fh:
@@ -155,7 +164,7 @@ def run_case(case, tmp):
             _meta, hi = hash_file(p, fs, alg)
             rec("hash_file", alg, hi.value, True, True, stream == "legacy", None, exp=conc(whole))
         os.unlink(p)
-    if stream == "plain" and case.get("jitter"):
+    if stream == "plain" and case.get("jitter") and not short:
         rng = random.Random(case["id"])
         st = get_hash_stream(io.BytesIO(data), name="md5")
         out = b""
@@ -187,7 +196,7 @@ def generate(cfg):
     for v in res.printed:
         if isinstance(v, tuple) and v and v[0] == "CASE":
             _t, stream, content, hist, fed = v
-            cases.append({"stream": stream, "content": list(content), "reads": list(hist), "fed": list(fed)})
+            cases.append({"stream": stream, "content": list(content), "reads": [list(h) for h in hist], "fed": list(fed)})
     if not cases:
         raise tlc.MachineryError("no cases generated")
     return cases
@@ -199,6 +208,8 @@ def check(run: core.Run, replay=None):
     rng = random.Random(run.seed)
     validate.run_design(run, "HashStream", "HashStream_quick.cfg", workers=8, required_actions=["Next"] if False else (),
                         constants={"kinds": 6, "MaxLen": 4, "ReadSizes": [1, 2, 3, 4]})
+    validate.run_design(run, "HashStream", "HashStream_short.cfg", workers=1,
+                        constants={"kinds": 4, "MaxLen": 3, "ReadSizes": [2, 3], "Short": True})
     if replay:
         cases = [replay["witness"]["case"]]
     else:
@@ -206,6 +217,9 @@ def check(run: core.Run, replay=None):
         more = generate("HashStream_gen4.cfg")
         more = [c for c in more if len(c["content"]) == 4]
         cases += rng.sample(more, min(len(more), 3000 if quick else len(more)))
+        short = generate("HashStream_short.cfg")
+        short = [c for c in short if any(k < n for n, k in c["reads"])]
+        cases += rng.sample(short, min(len(short), 1500 if quick else len(short)))
     for i, c in enumerate(cases):
         c["id"] = i
         c["files"] = i % 5 == 0
@@ -222,14 +236,15 @@ def check(run: core.Run, replay=None):
         tag, prop, clause, i, _j, dev = v
         r = recs[i - 1]
         if tag == "VERDICT":
-            run.verdict(prop, clause, dev, {"record": r, "case": {k: r[k] for k in ("stream", "content", "reads")}})
+            run.verdict(prop, clause, dev, {"record": r, "case": {k: r[k] for k in ("stream", "content", "reads", "fed")}})
         elif clause not in seen:
             seen.add(clause)
             run.divergence({"at": clause, "record": r})
     run.extra.update({"rule": "every content of <= 3 units over 6 unit kinds (all of <= 4 units in the thorough tier, a seeded "
                               "3000 of them in quick) x every complete sequence of read sizes x both stream kinds, through "
                               "the stream classes, fobj_md5, file_md5 and hash_file for md5 / sha256 / blake3 / MD5 / "
-                              "md5-dos2unix; byte-granular read sizes (1..1000, 511/512/513) for plain streams",
+                              "md5-dos2unix; byte-granular read sizes (1..1000, 511/512/513) for plain streams; short reads (the "
+                              "source returns fewer units than requested before the end) for the stream classes and fobj_md5",
                       "cases": len(cases), "records": len(recs), "validation": stats})
     run.assumptions += ["hashlib / blake3 primitives are the reference (their correctness is trusted)",
                         "units are 256 bytes; for the legacy stream read sizes are whole units (>= 512 bytes as the code asserts)"]
